@@ -311,3 +311,55 @@ def c17_matchers(v, text="", base_text="", **kw):
     if kind == "exceeds_progress_bound" and place == "trailing_assignment" and "**" in (d.get("comment") or ""):
         return "C17-power-tower-in-trailing-comment-is-evaluated-by-pint"
     return None
+
+
+@matcher("C11")
+def c11_matchers(v, text="", ode=None, ref=None, saved=None, **kw):
+    """Counterfactual for the writer: the same model saved with sympy.simplify replaced by the identity
+    (harness process only) reloads to a model whose value agrees with the reference."""
+    d = v.get("detail", {})
+    if v.get("kind") != "numerics_differ_after_reload" or ode is None or not v.get("_point"):
+        return None
+    import os
+    import tempfile
+
+    import sympy
+
+    from ..exec.pyexec import PyModule
+    from . import common as C
+
+    orig = sympy.simplify
+    from gotranx.codegen.ode import BaseGotranODECodePrinter as _P
+
+    had_not = "_print_Not" in _P.__dict__
+    try:
+        sympy.simplify = lambda e, *a, **k: e
+        if not had_not:
+            # without simplify a compound Not reaches the writer, which has no method for it (prints '~')
+            _P._print_Not = lambda self, e: f"Not({self._print(e.args[0])})"
+        from gotranx.load import load_ode
+
+        path = os.path.join(tempfile.mkdtemp(prefix="c11cf-", dir=os.environ.get("VERIF_WORK")), "model.ode")
+        ode.save(path)
+        ode2 = load_ode(path)
+        oc = C.py_code(ode2, schemes=["explicit_euler", "generalized_rush_larsen"])
+    except Exception:
+        return None
+    finally:
+        sympy.simplify = orig
+        if not had_not and "_print_Not" in _P.__dict__:
+            del _P._print_Not
+    if not oc.ok:
+        return None
+    m = PyModule(oc.value)
+    rec = m.call(d["fn"], v["_point"], dt=None if d["fn"] == "monitor_values" else 0.05)
+    if rec.exc is not None:
+        return None
+    if d["fn"] == "monitor_values":
+        got = float(rec.out[m.names("monitor")[d["name"]]])
+    else:
+        st = [s for s, dn in ref.derivs.items() if dn == d["name"]][0]
+        got = float(rec.out[m.names("state")[st]])
+    if abs(got - d["expected"]) <= max(d["tol"], 1e-9 * abs(d["expected"])):
+        return "C11-simplify-in-writer-rewrites-condition"
+    return None
